@@ -540,6 +540,8 @@ impl Fx {
                     if l == 0 && !*fin && *len != 0 {
                         continue;
                     }
+                    // a sender has no reason to name an offset it has not reached in a frame without data
+                    let off = if l == 0 && !*fin { m.largest } else { off };
                     let end = off + l;
                     let raw = wire::stream(self.raw_sid(k), off, &vec![0xa5; l as usize], *fin);
                     self.legit(raw, "STREAM")?;
